@@ -88,6 +88,16 @@ def run(cfg, mk):
                 r = pad(da, grid, boundary_width=w, boundary={"X": "fill", "Y": "fill"}, fill_value={"X": 1.5, "Y": 7.5})
                 out.append(("pad2:%s:percall:values" % (sorted(w.items()),), flat(r.transpose(*sorted(r.dims)).data)))
             if not cfg["faces"]:
+                # interp_like over three axes, each filled with its own value: the corner cells show the order of the axes,
+                # which is the Grid's, never that of an unordered collection
+                ds3 = ds.assign_coords(xg=("xg", np.arange(N) * 1.0), yg=("yg", np.arange(N) * 1.0), zg=("zg", np.arange(N) * 1.0))
+                g3 = xgcm.Grid(ds3, coords={"X": {"center": "xc", "left": "xg"}, "Y": {"center": "yc", "left": "yg"}, "Z": {"center": "zc", "left": "zg"}}, periodic=False,
+                               boundary="fill", fill_value={"X": 10.0, "Y": -20.0, "Z": 5.0}, autoparse_metadata=False)
+                like = xr.DataArray(np.zeros((N, N, N)), dims=["zg", "yg", "xg"])
+                r = g3.interp_like(da, like)
+                out.append(("pad2:interp_like:dims", sorted(r.dims)))
+                out.append(("pad2:interp_like:values", flat(r.transpose(*sorted(r.dims)).data)))
+
                 def f2(x):
                     return x[..., 1:, 1:] - x[..., :-1, :-1]
                 r = grid.apply_as_grid_ufunc(f2, da, axis=[("Y", "X")], signature="(U:center,V:center)->(U:center,V:center)", boundary_width={"U": (1, 0), "V": (1, 0)})
